@@ -34,7 +34,7 @@
  * -DQSEND_REAL_QMAIL (C03/C04): qmail-send is linked with the REAL qmail.o of the scratch build (qmail.c compiled with
  * -include qsend_fork.h), and qmail_open()'s fork/exec starts the REAL qmail-queue main (instance "qq") as a third simulated
  * process on the other side of three simulated pipes; the bounce is what qmail-queue commits to the simulated queue, and from
- * then on it is an ordinary message of the scenario.  bf=1 makes that qmail-queue run fail at its first queue-file call;
+ * then on it is an ordinary message of the scenario.  bf=1 kills that qmail-queue before its first system call;
  * fault=2:<k>:<errno> makes the k-th call of the first qmail-queue child fail.
  *
  * output: CASE <scenario>, T <trace>, X <harness events>, D <queue dump>, END
@@ -234,7 +234,7 @@ static void real_reset(void) { }
  * blocks until it has exited.  What counts as "the bounce" for the driver (X bounce ... env= body=) is what qmail-queue
  * COMMITTED to the queue: the envelope in todo/<n> and the content of mess/<n>; the new message is announced (X newmsg) and
  * from then on is an ordinary message of the scenario (its recipient is the original sender / the double-bounce address).
- * bf=1 (scripted failure) makes qmail-queue's first queue-file system call fail (it exits 63: "trouble creating files"). */
+ * bf=1 (scripted failure): that qmail-queue is killed before its first system call (qmail_close: "Zqq crashed"). */
 SIM_INSTANCE(qq)
 static int nknown;                              /* message numbers already announced with X newmsg */
 static int known[4096]; static void known_add(int ino) { if (nknown < 4096) known[nknown++] = ino; }
@@ -311,7 +311,7 @@ int execv(const char *path, char *const argv[]) {
   /* close-on-exec is not used by qmail-send: the queue program inherits what the child branch left open */
   int scripted = S.bf[0] ? S.bf[nbounce % strlen(S.bf)] == '1' : 0;
   qq_fault_slot = -1;
-  if (scripted && sim_nfaults < 8) { qq_fault_slot = sim_nfaults; sim_faults[sim_nfaults].proc = 2; sim_faults[sim_nfaults].callno = 1; sim_faults[sim_nfaults].err = EIO; sim_nfaults++; }
+  if (scripted && sim_nfaults < 8) { qq_fault_slot = sim_nfaults; sim_faults[sim_nfaults].proc = 2; sim_faults[sim_nfaults].callno = 1; sim_faults[sim_nfaults].err = -4; sim_nfaults++; }   /* killed before its first call: "Zqq crashed" */
   sim_on = 0; sim_threads = 1;
   sim_spawn(c, qq_main);
   longjmp(c->exitjb, 1);
